@@ -3,6 +3,11 @@
 import json, os
 V = os.path.dirname(os.path.dirname(os.path.abspath(__file__)))
 ent = json.load(open(os.path.join(V, 'tools', 'manifest_entries.json')))
+ddir = os.path.join(V, 'tools', 'manifest_entries.d')
+if os.path.isdir(ddir):
+    for f in sorted(os.listdir(ddir)):
+        if f.endswith('.json'):
+            ent[f[:-5]] = json.load(open(os.path.join(ddir, f)))
 props = [json.loads(l) for l in open(os.path.join(V, 'properties.jsonl'))]
 checks, na = [], []
 for p in props:
